@@ -1,4 +1,5 @@
-SPECIFICATION Spec
+INIT MCInit
+NEXT MCNext
 CONSTANTS
   Themes = {"wide"}
   ML = 1
@@ -6,10 +7,11 @@ CONSTANTS
   EML = 1
   EMW = 1
   LaML = 0
+  Extras = FALSE
   Variant = "asis"
   Gran = "case"
-  Cases <- MC_Cases
-  LaCases <- MC_LaCases
+  Cases <- MC_None
+  LaCases <- MC_None
 CHECK_DEADLOCK FALSE
 ALIAS Alias
 INVARIANT TypeOK
